@@ -7,6 +7,14 @@ from wesym.contracts import seqchan
 from wesym import bmc
 
 
+import functools
+from wesym import coop
+
+
+def _coop_inst(preemptions, I):
+    coop.install(I, preemptions=preemptions)
+
+
 def main():
     t = tier()
     chk = Check('C15', [MOD + '/internal/queue', 'container/heap', 'container/list'], 'internal/queue',
@@ -32,14 +40,28 @@ def main():
         cj.append(Job(P + 'VerifC15Concurrent', (pr, per, cn), cfg={'unwind': per * pr + 2 + cn, 'timeout_ms': 120000}, max_paths=200000))
     res += chk2.run_jobs(cj)
     chk2.cleanup()
+    # the same contract by the symbolic scheduler inside the interpreter (coop.py), real container/list
+    chk3 = Check('C15', [MOD + '/internal/queue', 'container/list'], 'internal/queue', ['C15/zz_verif_c15.go', 'C15/zz_verif_c15_coop.go'],
+                 installers=[seqchan.install], prelude_pkgname='queue')
+    chk3.load([P + 'VerifC15Coop'])
+    kj = []
+    grid = [(1, 2, 0, 2), (2, 1, 0, 2), (1, 1, 1, 2)] if t == 'quick' else [(1, 3, 0, 3), (2, 1, 0, 3), (2, 2, 0, 2), (1, 2, 1, 2), (2, 1, 1, 2)]
+    for (pr, per, cn, pre) in grid:
+        kj.append(Job(P + 'VerifC15Coop', (pr, per, cn), cfg={'unwind': 12}, installers=[functools.partial(_coop_inst, pre)], max_paths=200000,
+                      label='VerifC15Coop(%d,%d,%d)[pre<=%d]' % (pr, per, cn, pre)))
+    res += chk3.run_jobs(kj)
+    chk3.cleanup()
     finish(chk, res, t,
            explanation='Bounded symbolic execution of PriorityQueue (with the real container/heap) and SimpleQueue (with the real '
                        'container/list) instantiated at a harness item type: counters are free 64-bit values, so every relative '
                        'order of up to N items (incl. ties) is one solver-explored family of paths; add/next interleavings split the '
                        'adds at every position. Sequential part of C15 only: the lost wake-up under concurrency is decided by the '
                        'schedule-symbolic BMC (see DESIGN section 4) and reported there.',
-           bounds={'items': '0..%d' % N, 'counters': 'free uint64 (all orders and ties)', 'outside': 'more items; concurrent interleavings (separate BMC job)'},
-           assumptions=['single goroutine in these harnesses: a blocking select with no ready case is reported as deadlock'],
+           bounds={'items': '0..%d' % N, 'counters': 'free uint64 (all orders and ties)',
+                   'concurrent_bmc': '(producers, items each, canceller) = %s: all schedules of the operation sequences in one formula' % (conc,),
+                   'concurrent_coop': '(producers, items each, canceller, preemption bound) = %s: symbolic scheduler inside the interpreter, real container/list' % (grid,),
+                   'outside': 'more items / producers; more preemptions than the bound in the coop jobs; weak memory'},
+           assumptions=['sequential harnesses: a blocking select with no ready case is reported as deadlock', 'concurrent harnesses: sequential consistency; data-race freedom w.r.t. mutex/channel/context operations'],
            trusted=['go/ssa lowering', 'wesym interpreter', 'z3 5.1.0 (+cvc5, z3 4.8.12 cross-check)'])
 
 
